@@ -145,7 +145,8 @@ Hypothesis Hx : model_at w m = Some x.
 Hypothesis Hshort : named T (n_type n) = true -> forall sn, w_nodes w sub = Some sn -> n_name sn <> SHORTN.
 Hypothesis Hh' : w_nodes w' h = Some (set_content n (remove_at (n_content n) pos)).
 Hypothesis Hout : forall j, j <> h -> ~ reach T w sub j -> w_nodes w' j = w_nodes w j.
-Hypothesis Hin : forall j nj, reach T w sub j -> w_nodes w j = Some nj -> w_nodes w' j = Some (wipe nj).
+(* the nodes of the removed subtree are wiped (remove_sub_element) or gone (the virtual first half of a move) *)
+Hypothesis Hin : forall j nj, reach T w sub j -> w_nodes w j = Some nj -> w_nodes w' j = Some (wipe nj) \/ w_nodes w' j = None.
 Hypothesis Hmodels : w_models w' = list_set (w_models w) (N.to_nat m) (apply_plan x K R).
 Hypothesis HK : forall k, In k K <-> exists j q, dpath T w sub j q /\ identifiable T w j = true /\ k = pp ++ seg T w sub ++ q.
 Hypothesis HR : forall p j, In (p, j) R <-> reach T w sub j /\ ref_text T w j = Some p.
@@ -207,7 +208,7 @@ Proof.
   - destruct (rem_dec p) as [Hd|Hnd].
     + split.
       * intros (n2 & Hn2 & Hc). exfalso. destruct (w_nodes w p) as [np|] eqn:Ep.
-        -- rewrite (Hin p np Hd Ep) in Hn2. injection Hn2 as <-. destruct Hc.
+        -- destruct (Hin p np Hd Ep) as [Hw|Hw]; rewrite Hw in Hn2; [|discriminate]. injection Hn2 as <-. destruct Hc.
         -- destruct Hd as (q & Hd). destruct (dpath_last T _ _ _ _ Hd) as [E|(p2 & Hc2 & _)].
            ++ subst p. destruct (tf_up _ HF _ _ rem_child) as (? & ? & _). congruence.
            ++ destruct (tf_up _ HF _ _ Hc2) as (? & ? & _). congruence.
@@ -380,13 +381,13 @@ Proof.
   destruct (specpath_fun T _ _ _ _ _ _ HF S2 S1) as (-> & _). reflexivity.
 Qed.
 
-Theorem removed_inv04 : Inv04 w'.
+Lemma removed_side : ShortTyped T check_fn w' /\ SlashFree T w' /\ AllNamed T w' /\ CharsLeaf T w'.
 Proof.
-  pose proof HI as [I1 I2 I3 IL I4 I5]. constructor.
+  pose proof HI as [I1 I2 I3 IL I4 I5]. split; [|split; [|split]].
   - (* ShortTyped *)
     intros j nj' Hj Hs. destruct (w_nodes w j) as [nj|] eqn:Ej.
     + destruct (rem_dec j) as [Hd|Hnd].
-      * rewrite (Hin j nj Hd Ej) in Hj. injection Hj as <-. cbn in *. eapply I1; eauto.
+      * destruct (Hin j nj Hd Ej) as [Hw|Hw]; rewrite Hw in Hj; [|discriminate]. injection Hj as <-. cbn in *. eapply I1; eauto.
       * destruct (rem_readings j nj Ej Hnd) as (nj2 & Hj2 & Ht & Hnm & _). rewrite Hj in Hj2. injection Hj2 as <-.
         rewrite Ht. eapply I1; eauto; congruence.
     + destruct (N.eq_dec j h) as [->|Hne]; [congruence|].
@@ -397,7 +398,7 @@ Proof.
   - (* SlashFree *)
     intros j nj' s Hj Hs Hcd. destruct (w_nodes w j) as [nj|] eqn:Ej.
     + destruct (rem_dec j) as [Hd|Hnd].
-      * rewrite (Hin j nj Hd Ej) in Hj. injection Hj as <-. unfold cdata_of, character_data in Hcd. cbn in Hcd. discriminate.
+      * destruct (Hin j nj Hd Ej) as [Hw|Hw]; rewrite Hw in Hj; [|discriminate]. injection Hj as <-. unfold cdata_of, character_data in Hcd. cbn in Hcd. discriminate.
       * destruct (N.eq_dec j h) as [->|Hne].
         -- rewrite Hh' in Hj. injection Hj as <-. cbn in Hs. exfalso. apply rem_h_not_short. rewrite Hn in Ej. injection Ej as <-. exact Hs.
         -- rewrite (rem_node_out j nj Ej Hnd Hne) in Hj. injection Hj as <-. eapply I2; eauto.
@@ -409,7 +410,7 @@ Proof.
   - (* AllNamed *)
     intros j nj' Hj Hid. destruct (w_nodes w j) as [nj|] eqn:Ej.
     + destruct (rem_dec j) as [Hd|Hnd].
-      * rewrite (Hin j nj Hd Ej) in Hj. injection Hj as <-. unfold identifiable_n, short_child in Hid. cbn in Hid.
+      * destruct (Hin j nj Hd Ej) as [Hw|Hw]; rewrite Hw in Hj; [|discriminate]. injection Hj as <-. unfold identifiable_n, short_child in Hid. cbn in Hid.
         rewrite andb_false_r in Hid. discriminate.
       * destruct (rem_readings j nj Ej Hnd) as (nj2 & Hj2 & _ & _ & Hin2 & Hid2 & _). rewrite Hj in Hj2. injection Hj2 as <-.
         rewrite Hin2. eapply I3; eauto; congruence.
@@ -421,7 +422,7 @@ Proof.
   - (* CharsLeaf *)
     intros j nj' Hj Hm. destruct (w_nodes w j) as [nj|] eqn:Ej.
     + destruct (rem_dec j) as [Hd|Hnd].
-      * rewrite (Hin j nj Hd Ej) in Hj. injection Hj as <-. left. reflexivity.
+      * destruct (Hin j nj Hd Ej) as [Hw|Hw]; rewrite Hw in Hj; [|discriminate]. injection Hj as <-. left. reflexivity.
       * destruct (N.eq_dec j h) as [->|Hne].
         -- rewrite Hh' in Hj. injection Hj as <-. cbn in Hm. exfalso. rewrite Hn in Ej. injection Ej as <-.
            pose proof (chars_content_elems _ (IL _ _ Hn Hm)) as He.
@@ -432,6 +433,23 @@ Proof.
       exfalso. destruct (dpath_last T _ _ _ _ Hd) as [E|(p2 & Hc2 & _)].
       * subst j. destruct (tf_up _ HF _ _ rem_child) as (? & ? & _). congruence.
       * destruct (tf_up _ HF _ _ Hc2) as (? & ? & _). congruence.
+Qed.
+
+(* the specification path of an element outside the removed subtree *)
+Lemma rem_specpath m2 j p : ~ D j -> (SpecPath T w' m2 j p <-> SpecPath T w m2 j p).
+Proof.
+  intros Hj. destruct (rem_model m2) as (x2' & [(E1 & E2)|(x2 & E1 & E2 & Er & _)]).
+  { split; intros (y & Hy & _); congruence. }
+  pose proof (root_notD m2 x2 E1) as Hrd. unfold SpecPath, spath. split.
+  - intros (y & Hy & (q & Hd & ->)). rewrite E2 in Hy. injection Hy as <-. rewrite Er in *.
+    apply (rem_dpath _ _ _ Hrd) in Hd as (Hd & _). exists x2. split; [exact E1|]. exists q. split; [exact Hd|]. rewrite (rem_seg _ Hrd). reflexivity.
+  - intros (y & Hy & (q & Hd & ->)). rewrite E1 in Hy. injection Hy as <-. exists x2'. split; [exact E2|]. rewrite Er. exists q.
+    split; [apply (rem_dpath _ _ _ Hrd); auto|]. rewrite (rem_seg _ Hrd). reflexivity.
+Qed.
+
+Theorem removed_inv04 : Inv04 w'.
+Proof.
+  pose proof HI as [I1 I2 I3 IL I4 I5]. destruct removed_side as (S1 & S2 & S3 & S4). constructor; [exact S1|exact S2|exact S3|exact S4| |].
   - (* IndexExact *)
     intros m2 x2' Hx2' p j. rewrite rem_pathset.
     destruct (rem_model m2) as (y' & [(E1 & E2)|(x2 & E1 & E2 & Er & Ei)]); [congruence|].
@@ -523,7 +541,7 @@ Proof.
   intros Hj. destruct (N.eq_dec j h) as [->|Hne]; [left; split; [reflexivity|congruence]|].
   destruct (rem_dec j) as [Hd|Hnd].
   - right. left. split; [exact Hd|]. destruct (D_alloc j Hd) as (nj & Hnj). exists nj. split; [exact Hnj|].
-    rewrite (Hin j nj Hd Hnj) in Hj. congruence.
+    destruct (Hin j nj Hd Hnj) as [Hw|Hw]; rewrite Hw in Hj; congruence.
   - right. right. rewrite (Hout j Hne Hnd) in Hj. auto.
 Qed.
 
